@@ -130,6 +130,12 @@ pub fn fd_sat(a: &[isize], g: &PG) -> Option<bool> {
 /// multiset union over the paths (a solution reachable through two clauses of a disjunction is
 /// expected twice), sorted.
 pub fn fd_solutions(nvars: usize, nq: usize, body: &[PG], lo: isize, hi: isize) -> Option<Vec<Vec<isize>>> {
+    let proj: Vec<usize> = (0..nq).collect();
+    fd_solutions_proj(nvars, &proj, body, lo, hi)
+}
+
+/// the same with an arbitrary projection (list of variable indices)
+pub fn fd_solutions_proj(nvars: usize, proj: &[usize], body: &[PG], lo: isize, hi: isize) -> Option<Vec<Vec<isize>>> {
     let ps = paths(body);
     let width = (hi - lo + 1) as usize;
     let total = width.pow(nvars as u32);
@@ -156,7 +162,7 @@ pub fn fd_solutions(nvars: usize, nq: usize, body: &[PG], lo: isize, hi: isize) 
                 }
             }
             if all {
-                let q = a[..nq].to_vec();
+                let q: Vec<isize> = proj.iter().map(|i| a[*i]).collect();
                 if !per_path[pi].contains(&q) {
                     per_path[pi].push(q);
                 }
